@@ -359,9 +359,11 @@ def check_focus_variants(ns, part):
             continue
         part["outcomes"][f"variant:{tag}:{len(got) == n}"] += 1
         if len(got) != n:
+            ncalls = len(action())  # the action is a tuple of calls
+            symptom = "symptom:never-fires" if not got else ("symptom:fires-for-every-receiver" if len(got) == ncalls else "symptom:other-count")
             part["violations"].append(violation(
                 PROP, "wrong-receiver-filter", {"variant": text},
-                f"{text}: expected {n} events (calls on the probed receiver only), delivered {len(got)}: {got!r}", tags=[tag]))
+                f"{text}: expected {n} events (calls on the probed receiver only), delivered {len(got)}: {got!r}", tags=[tag, symptom]))
         else:
             part["nontrivial"] += 1
 
